@@ -92,7 +92,7 @@ def random_case(rng, tier):
         opts['late_output'] = True
     if rng.random() < 0.2:
         opts['cleanup_registers'] = True
-    return {'program': program, 'schedule': schedule, 'opts': opts}
+    return {'program': program, 'schedule': schedule, 'opts': common.with_communicator(rng, opts)}
 
 
 def shrink(case):
@@ -284,6 +284,13 @@ def _oracle(engine, result, case, drive):
         pass
     except BaseException as exc:  # noqa: BLE001
         result.violate('not_closed', type(exc).__name__, f'add_cleanup raised {exc!r} instead of ClosedError')
+    if engine.communicator is not None:
+        # the clean-ups of the process itself: it is no longer subscribed to its communicator
+        result.counters['probe:with_communicator'] += 1
+        left = sorted(map(str, getattr(engine.communicator, '_rpc_subscribers', {}))) \
+            + sorted(map(str, getattr(engine.communicator, '_broadcast_subscribers', {})))
+        if left:
+            result.violate('cleanups', 'still_subscribed', f'the terminated process is still subscribed to its communicator: {left}')
     task = engine.task
     if not task.done():
         result.violate('stepper_blocked', f'{state}|paused={proc.paused}',
